@@ -245,13 +245,30 @@ class UnitResult:
 TRUST_PAT = re.compile(r"(external_body|external_type_specification|external_trait_specification|external_fn_specification|assume_specification|\bassume\s*\(|\badmit\s*\(|\buninterp\b|verifier::external\b(?!_)|verifier::trusted)")
 
 
+IMPL_PAT = re.compile(r"\bimpl\b(?:\s*<[^{]*?>)?\s+(?:[^{;]*?\bfor\s+)?([A-Za-z_][\w:]*)[^{;]*\{")
+
+
 def scan_trusted(text):
-    """every trusted declaration in the generated file: (kind, name)"""
+    """every trusted declaration in the generated file: (kind, name); a function inside an `impl .. X {` block is
+    named `X::f` (the impl header is looked for on the same line, else the nearest enclosing one above)"""
     out = []
     lines = text.split("\n")
+    cur_impl, cur_indent = None, 0
     for i, ln in enumerate(lines):
-        if ln.lstrip().startswith("//"):
+        stripped = ln.lstrip()
+        if stripped.startswith("//"):
             continue
+        indent = len(ln) - len(stripped)
+        if cur_impl is not None and stripped.startswith("}") and indent <= cur_indent:
+            cur_impl = None
+        mi = IMPL_PAT.search(ln)
+        same_line_impl = None
+        if mi and stripped.startswith(("impl", "pub impl", "unsafe impl")) or (mi and "impl" in ln):
+            if mi:
+                # one-line impl (closed on the same line) does not open a scope
+                if ln.count("{") > ln.count("}"):
+                    cur_impl, cur_indent = mi.group(1), indent
+                same_line_impl = mi.group(1)
         m = TRUST_PAT.search(ln)
         if not m:
             continue
@@ -268,13 +285,91 @@ def scan_trusted(text):
                         break
                 k += 1
             name = ln[st + 1:k].replace(" ", "") if st >= 0 else ""
-        for k in range(i, min(i + 6, len(lines))) if not name else []:
-            mm = re.search(r"\b(?:fn|struct|trait|type|enum)\s+(\w+)", lines[k])
-            if mm:
-                name = mm.group(1)
-                break
+        if not name:
+            for k in range(i, min(i + 6, len(lines))):
+                seg = lines[k][m.end():] if k == i else lines[k]
+                mm = re.search(r"\b(fn|struct|trait|type|enum)\s+(\w+)", seg)
+                if mm:
+                    name = mm.group(2)
+                    if mm.group(1) == "fn":
+                        owner = None
+                        if k == i:
+                            pre = [x for x in IMPL_PAT.finditer(ln) if x.end() <= m.start()]
+                            owner = pre[-1].group(1) if pre else cur_impl
+                        else:
+                            owner = cur_impl
+                        if owner:
+                            name = owner.split("::")[-1] + "::" + name
+                    break
         kind = m.group(1).rstrip("( ").split("::")[-1]
         out.append(f"{kind}:{name}")
+    return sorted(set(out))
+
+
+def scan_standins(gen):
+    """executable functions WRITTEN IN THE TEMPLATE (not extracted from /repo, not external_body): getters of stand-in
+    types, structural PartialEq models, wrappers around //%expr ranges.  Verus checks their bodies, but that they
+    behave like the real counterpart is an assumption; they are listed in the evidence so nothing hand-written is
+    silently counted as code of /repo."""
+    text = gen["text"]
+    regions = [(s, e) for (s, e, _i, _segs) in gen["regions"]]
+    # blank out comments so braces/keywords in them do not count
+    clean = re.sub(r"//[^\n]*", lambda m: " " * len(m.group(0)), text)
+    out = []
+    for m in re.finditer(r"\bfn\s+(\w+)", clean):
+        a = m.start()
+        if any(s <= a < e for (s, e) in regions) or m.group(1) == "main":
+            continue
+        # the item's leading text: back to the previous `;`, `{` or `}`
+        k = a
+        while k > 0 and clean[k - 1] not in ";{}":
+            k -= 1
+        lead = clean[k:a]
+        if re.search(r"\b(spec|proof)\b", lead) or "external_body" in lead:
+            continue
+        # body?
+        depth, j, body = 0, m.end(), None
+        while j < len(clean):
+            ch = clean[j]
+            if ch in "([":
+                depth += 1
+            elif ch in ")]":
+                depth -= 1
+            elif depth == 0 and ch == "{":
+                body = j
+                break
+            elif depth == 0 and ch == ";":
+                break
+            j += 1
+        if body is None:
+            continue
+        d, j = 0, body
+        while j < len(clean):
+            if clean[j] == "{":
+                d += 1
+            elif clean[j] == "}":
+                d -= 1
+                if d == 0:
+                    break
+            j += 1
+        wraps = any(body < s_ and e_ <= j + 1 for (s_, e_) in regions)
+        # owner: nearest enclosing impl header
+        owner = None
+        for mi in IMPL_PAT.finditer(clean[:a]):
+            ob = mi.end() - 1
+            dd, q = 0, ob
+            while q < len(clean):
+                if clean[q] == "{":
+                    dd += 1
+                elif clean[q] == "}":
+                    dd -= 1
+                    if dd == 0:
+                        break
+                q += 1
+            if ob < a < q:
+                owner = mi.group(1).split("::")[-1]
+        name = (owner + "::" if owner else "") + m.group(1)
+        out.append(name + (" (wrapper binding the free variables of an extracted statement range)" if wraps else ""))
     return sorted(set(out))
 
 
@@ -351,6 +446,7 @@ def process_unit(unit, tier, keep=False, verbose=False, seed=0):
             owners["prelude:" + name] = max(owners.get("prelude:" + name, 0), n)
     r.clause_owners = owners
     r.trusted = scan_trusted(gen["text"])
+    r.standins = scan_standins(gen)
     declared = set()
     for tf in (os.path.join(udir, "trusted.txt"), os.path.join(UNITS, "common", "trusted.txt")):
         if os.path.isfile(tf):
@@ -634,6 +730,8 @@ def cmd_run(a):
             "obligations": total_obl, "discharged": total_dis,
             "checker_cmd": "; ".join(sorted({r.cmd for r in results if r.cmd})) or "verus <unit>.rs --output-json --time --error-format=json",
             "trusted_base": sorted(trusted) + idx.get("trusted_base_common", []) + pinfo.get("trusted_base", []),
+            "template_written_standins": {r.unit: getattr(r, "standins", []) for r in results},
+            "template_written_standins_note": "executable functions written in the unit templates (getters of stand-in types, structural PartialEq models, wrappers binding the free variables of an extracted statement range); Verus checks their bodies, but their agreement with the real counterpart in /repo is ASSUMED, like the external_body items in trusted_base",
             "explanation": pinfo.get("what", ""),
             "obligation_counting_rule": "obligations = distinct functions Verus checked (each bundles its implicit safety obligations: overflow, index bounds, callee preconditions, unreachable panics, termination) + distinct explicit requires/ensures/invariant/decreases/assert clauses in the spliced annotations and the prelude; a function or clause of a fragment shared by several units of the property is counted once",
             "distinct_functions": len(distinct_fns), "distinct_explicit_clauses": sum(distinct_clauses.values()),
